@@ -103,7 +103,7 @@ def materialise(eng, st, v):
     if isinstance(v, Ref):
         return v
     if isinstance(v, Row):
-        return alloc(st, 1, define1(st, v.esort, v.fn), (v.n,), v.esort)
+        return alloc(st, 1, define1(st, v.esort, v.fn), (v.n,), v.esort, {'identity': True} if getattr(v, 'identity', False) else None)
     if isinstance(v, Mat):
         return alloc(st, 2, define2(st, v.esort, v.fn), v.shape, v.esort)
     raise OutOfSubset('materialise %r' % (v,))
@@ -539,6 +539,20 @@ def call(eng, st, name, args, kw, node):
     return f(eng, st, args, kw, node)
 
 
+def _mentions_var(e, v):
+    todo, seen_ = [e], set()
+    while todo:
+        t_ = todo.pop()
+        if t_.get_id() in seen_:
+            continue
+        seen_.add(t_.get_id())
+        if t_.eq(v):
+            return True
+        if z3.is_app(t_):
+            todo.extend(t_.children())
+    return False
+
+
 def np_where(eng, st, args, kw, node):
     if len(args) == 3:
         c, a, b = args
@@ -583,12 +597,25 @@ def np_where(eng, st, args, kw, node):
     widx = z3.Function('widx!%d' % next(core._fresh), INT, INT)
     pats = [widx(x)]
     try:
-        cx = to_z3(r.fn(x))
-        if z3.is_app(cx) and cx.decl().kind() == z3.Z3_OP_SELECT:
-            pats.append(cx)          # also triggered by the tested entry itself (M[u][x]), so that "M[u][w] != 0" finds w in the result
+        # also triggered by the tested entry itself (M[u][x], id[x]): the first array read whose index is exactly the position, so
+        # that a fact about that entry finds the position in the result
+        todo, seen_ = [to_z3(r.fn(x))], set()
+        while todo:
+            e_ = todo.pop()
+            if e_.get_id() in seen_ or not z3.is_app(e_):
+                continue
+            seen_.add(e_.get_id())
+            if e_.decl().kind() == z3.Z3_OP_SELECT and e_.arg(1).eq(x) and not _mentions_var(e_.arg(0), x) and not core._has_lambda(e_):
+                pats.append(e_)
+                break
+            todo.extend(e_.children())
     except Exception:
         pass
-    st.pc.append(z3.ForAll([x], z3.Implies(z3.And(x >= 0, x < n0, truth(r.fn(x))), z3.And(widx(x) >= 0, widx(x) < k, z3.Select(it, widx(x)) == x)), patterns=pats))
+    body_ = z3.Implies(z3.And(x >= 0, x < n0, truth(r.fn(x))), z3.And(widx(x) >= 0, widx(x) < k, z3.Select(it, widx(x)) == x))
+    try:
+        st.pc.append(z3.ForAll([x], body_, patterns=pats))
+    except z3.Z3Exception:
+        st.pc.append(z3.ForAll([x], body_, patterns=[widx(x)]))
     # emptiness form (no Skolem function; patterns inferred from the condition): a position satisfying the condition makes the result non-empty
     st.pc.append(z3.ForAll([x], z3.Implies(z3.And(x >= 0, x < n0, truth(r.fn(x))), k >= 1)))
     return TupleV((alloc(st, 1, it, (k,), INT, {'where_idx': widx, 'where_cond1': (lambda q, r=r: r.fn(q)), 'where_n': r.n}),))
@@ -732,6 +759,23 @@ def np_outer(eng, st, args, kw, node):
     return Mat((a.n, b.n), lambda x, y, a=a, b=b: eng.binop(ast.Mult(), a.fn(x), b.fn(y), st), REAL if REAL in (a.esort, b.esort) else INT)
 
 
+def np_delete(eng, st, args, kw, node):
+    """np.delete(arr, idx) only in the form np.delete(list(range(n)) / np.arange(n), idx) with idx the result of a 1-D np.where(mask):
+    the ascending enumeration of the positions where the mask does NOT hold (the complement of idx)."""
+    arr, idx = args[0], args[1]
+    ident = (isinstance(arr, Row) and getattr(arr, 'identity', False)) or (isinstance(arr, Ref) and st.heap[arr.oid].meta.get('identity'))
+    if isinstance(arr, Ref):
+        arr = as_row(eng, st, arr)
+    meta = st.heap[idx.oid].meta if isinstance(idx, Ref) else {}
+    if not ident or meta.get('where_cond1') is None or kw or len(args) != 2:
+        raise OutOfSubset('np.delete form')
+    cond = meta['where_cond1']
+    neg = Row(meta['where_n'], lambda q, cond=cond: z3.Not(truth(cond(q))), BOOL)
+    if not z3.simplify(to_z3(arr.n, INT) - to_z3(meta['where_n'], INT)).eq(z3.IntVal(0)):
+        raise OutOfSubset('np.delete: lengths differ')
+    return np_where(eng, st, [neg], {}, node)[0]
+
+
 def np_minimum(eng, st, args, kw, node):
     def f(a, b):
         x, y = num2(to_z3(a), to_z3(b))
@@ -809,7 +853,9 @@ def np_eye(eng, st, args, kw, node):
 
 def np_arange(eng, st, args, kw, node):
     if len(args) == 1:
-        return Row(args[0], lambda q: q, INT)
+        r_ = Row(args[0], lambda q: q, INT)
+        r_.identity = True
+        return r_
     if len(args) == 2:
         lo = to_z3(args[0], INT)
         return Row(to_z3(args[1], INT) - lo, lambda q: lo + q, INT)
